@@ -87,6 +87,19 @@ class Boom(mwbase.BlockMiddleware):
         return entry
 
 
+class MarkLib(mwbase.LibraryMiddleware):
+    """Library-level probe whose effect does not depend on the blocks present: adds one marker comment."""
+
+    def __init__(self, tag, inplace):
+        super().__init__(allow_inplace_modification=inplace)
+        self.tag = tag
+
+    def transform(self, library):
+        library = super().transform(library)
+        library.add(M.ExplicitComment(comment="marker " + self.tag))
+        return library
+
+
 class DropComments(mwbase.BlockMiddleware):
     def __init__(self, tag, inplace):
         super().__init__(allow_inplace_modification=inplace, allow_parallel_execution=True)
@@ -177,6 +190,8 @@ def build_mw(d):
         return DropComments(d.get("t", ""), d["ip"])
     if k == "boom":
         return Boom(d["n"], d["ip"])
+    if k == "mark":
+        return MarkLib(d.get("t", "m"), d["ip"])
     if k == "shipped":
         return SHIPPED[d["i"] % len(SHIPPED)](d["ip"])
     raise ValueError(k)
@@ -215,6 +230,8 @@ def _mwdesc(rng, tags):
         return {"k": "boom", "n": rng.choice([1, 2, 2, 3]), "ip": ip}
     if r < 0.80:
         return {"k": "again", "ip": ip}
+    if r < 0.85:
+        return {"k": "mark", "t": tags.pop(0), "ip": ip}
     return {"k": "shipped", "i": rng.randrange(len(SHIPPED)), "ip": ip}
 
 
@@ -251,7 +268,7 @@ def generate(rng, tier, prop):
     for _ in range(rng.randint(1, 2)):
         enc = rng.choice(ENCODINGS)
         kn = docgen.draw_knobs(rng, tier, enc)
-        kn.update({"nblocks": rng.choice([1, 2, 3, 5]) if rng.random() > (0.04 if tier == "quick" else 0.1) else rng.choice([40, 120, 400]), "collide": rng.random() < 0.2, "names": False})
+        kn.update({"nblocks": rng.choice([0, 1, 2, 3, 5]) if rng.random() > (0.04 if tier == "quick" else 0.1) else rng.choice([40, 120, 400]), "collide": rng.random() < 0.2, "names": False})
         d = docgen.make_doc(rng, kn)
         try:
             d["text"].encode(enc)
@@ -655,7 +672,7 @@ def execute(run, props):
                               f"{label} differs from the requested stack followed by the writer: {got[1][:200]!r} vs {want[1][:200]!r}")
                             return res
                         res.nontrivial = True
-                    inplace_block_mw = any(d.get("ip") and d["k"] in ("tagb", "drop", "boom", "shipped", "again")
+                    inplace_block_mw = any(d.get("ip") and d["k"] in ("tagb", "drop", "boom", "shipped", "again", "mark")
                                            for part in (a["full"], a["add"]) if part for d in part)
                     if [id(b) for b in lib.blocks] != held_before and not inplace_block_mw:
                         # with every middleware of the stack in copy mode, nothing may change WHICH blocks the caller's
